@@ -179,7 +179,8 @@ def body_mirror(spec, stats):
 def streams(tier, avoid):
     big = tier == "thorough"
     # (0 V sources included: they make a PMux fall back to a later input)
-    o1 = G.Opts(max_nodes=16 if big else 10, f_max=0.10, avoid=avoid, zero_source=True)
+    o1 = G.Opts(max_nodes=16 if big else 10, f_max=0.10, avoid=avoid, zero_source=True,
+                neg_axes=True)
     o2 = G.Opts(max_nodes=12 if big else 8, f_max=0.10, avoid=avoid,
                 source_rs="F1" not in avoid)
     return [
